@@ -173,8 +173,13 @@ static void genCase(int k, unsigned long long seed) {
     int pk = r.I(0, 9); Real mag = pk == 0 ? 0.0 : (pk == 1 ? 1e-12 : std::pow(10.0, r.U(-6, -1)));
     for (int i = 0; i < s.getNQ(); ++i) s.updQ()[i] += mag * r.U(-1, 1);
     for (int i = 0; i < s.getNU(); ++i) s.updU()[i] += mag * r.U(-1, 1);
-    std::printf("CASE %d gen seed %llu types %s %s %s %s %s assembled %d weights %d perturb %a cons%s\n", k, seed, MOBTYPES[cs.types[0]], MOBTYPES[cs.types[1]],
-                MOBTYPES[cs.types[2]], MOBTYPES[cs.types[3]], euler ? "euler" : "quat", (int)assembled, (int)wts, mag, descr.c_str());
+    // does a ConstantCoordinate / CoordinateCoupler name a quaternion component (a q that normalizeQuaternions rescales)?
+    int qcc = 0;
+    for (size_t i = 0; i < cs.cons.size(); ++i) if (cs.cons[i].kind == K_CCOORD || cs.cons[i].kind == K_CCPL)
+        for (size_t j = 0; j < cs.cons[i].coords.size(); ++j)
+            if (cs.matter.isUsingQuaternion(s, MobilizedBodyIndex(cs.cons[i].coords[j].first)) && cs.cons[i].coords[j].second < 4) qcc = 1;
+    std::printf("CASE %d gen seed %llu types %s %s %s %s %s assembled %d weights %d qcc %d perturb %a cons%s\n", k, seed, MOBTYPES[cs.types[0]], MOBTYPES[cs.types[1]],
+                MOBTYPES[cs.types[2]], MOBTYPES[cs.types[3]], euler ? "euler" : "quat", (int)assembled, (int)wts, qcc, mag, descr.c_str());
     Opt oq = randOpt(r), ou = randOpt(r);
     Vector estQ, estU; if (r.I(0, 3) == 0) { estQ.resize(s.getNQ()); for (int i = 0; i < s.getNQ(); ++i) estQ[i] = 1e-3 * r.U(-1, 1); }
     if (r.I(0, 3) == 0) { estU.resize(s.getNU()); for (int i = 0; i < s.getNU(); ++i) estU[i] = 1e-3 * r.U(-1, 1); }
@@ -232,9 +237,9 @@ static void linCase(int k, unsigned long long seed) {
 // ------------------------------------------------------------------------------------------------ spec
 static Opt defOpt(Real acc, bool dthrow = true) { Opt o; o.acc = acc; o.ov = 0.1; o.lim = Infinity; o.local = false; o.dthrow = dthrow; o.inf = false; o.force = false; o.fullN = false; return o; }
 static void specCase(int k, unsigned long long seed) {
-    Rng r(seed); int what = k % 8; Vector none;
+    Rng r(seed); int what = k % 9; Vector none;
     ConSystem cs; Body::Rigid body(randomMassProps(r));
-    std::printf("CASE %d spec seed %llu what %d\n", k, seed, what);
+    std::printf("CASE %d spec seed %llu what %d qcc %d\n", k, seed, what, what == 8 ? 1 : 0);
     if (what <= 2) {
         // two ConstantCoordinate / ConstantSpeed constraints on the same coordinate with different values: inconsistent, the least
         // squares iteration stalls at a non-zero norm (iteration limit without LocalOnly; stall or "divergence" by rounding with it)
@@ -247,6 +252,25 @@ static void specCase(int k, unsigned long long seed) {
         toPosition(cs, s); callQ(cs, s, o, none); toVelocity(cs, s); callU(cs, s, o, none);
         // and started from the least-squares point: the iteration cannot improve, so the state is restored ("made it worse" uses >=)
         o.dthrow = true; toPosition(cs, s); callQ(cs, s, o, none); toVelocity(cs, s); callU(cs, s, o, none);
+        // boundary of the success test: the iteration stalls at a norm that is 1.05 .. 1.9 times the accuracy (must fail, improved
+        // but not good enough) resp. the accuracy is 1.05 .. 1.9 times the stall norm (must succeed after using all iterations)
+        for (int pass = 0; pass < 2; ++pass) {
+            Real pn, qn; int mh, mq; toPosition(cs, s); normsQ(cs.matter, s, o.inf, pn, qn, mh, mq);
+            Opt ob = o; ob.local = false; ob.acc = pass == 0 ? pn / r.U(1.05, 1.9) : pn * r.U(1.05, 1.9); ob.ov = 0.1;
+            State t = s; t.updQ()[0] += 0.1; t.updQ()[1] -= 0.2; toPosition(cs, t); callQ(cs, t, ob, none);
+            toVelocity(cs, s); Real un = normU(s, o.inf);
+            ob.acc = pass == 0 ? un / r.U(1.05, 1.9) : un * r.U(1.05, 1.9);
+            State t2 = s; t2.updU()[0] += 0.1; t2.updU()[1] -= 0.2; toPosition(cs, t2); toVelocity(cs, t2); callU(cs, t2, ob, none);
+        }
+    } else if (what == 8) {
+        // KNOWN FINDING witness: a ConstantCoordinate on a quaternion component of a Free body.  The Newton part drives the
+        // constraint error to ~1e-16 moving the quaternion tangentially (|q| grows), then normalizeQuaternions rescales the
+        // constrained component and nobody looks again: Succeeded, while the returned state violates the constraint.
+        MobilizedBody::Free f(cs.matter.Ground(), r.xf(), body, r.xf()); cs.types.push_back(9);
+        Constraint::ConstantCoordinate(f, MobilizerQIndex(1), 0.3);
+        finishState(cs, r, false); State s = cs.state;
+        Opt o = defOpt(1e-6);
+        toPosition(cs, s); callQ(cs, s, o, none); toVelocity(cs, s); callU(cs, s, o, none);
     } else if (what == 3) {
         // projection limit below the entry norm
         MobilizedBody::Free f(cs.matter.Ground(), r.xf(), body, r.xf()); Constraint::Rod(cs.matter.Ground(), r.v3(0.3), f, r.v3(0.3), 2.5);
@@ -264,7 +288,7 @@ static void specCase(int k, unsigned long long seed) {
         cs.types.push_back(8); cs.types.push_back(9);
         finishState(cs, r, false); State s = cs.state; s.setTime(0.2);
         for (int i = 0; i < s.getNQ(); ++i) s.updQ()[i] += 0.05 * r.U(-1, 1);
-        Opt o = defOpt(1e-6, k % 16 < 8);
+        Opt o = defOpt(1e-6, k % 18 < 9);
         toPosition(cs, s); callQ(cs, s, o, none); toVelocity(cs, s); callU(cs, s, o, none);
         o.force = true; o.dthrow = true; toPosition(cs, s); callQ(cs, s, o, none);
     } else if (what == 6) {
@@ -292,6 +316,13 @@ int main(int argc, char** argv) {
 #ifdef SIMBODY_VERIF
     SimTK::VerifTrace::sink().store(&traceSink);
 #endif
+    std::printf("CONST sig %a hooks %d\n", (double)SignificantReal,
+#ifdef SIMBODY_VERIF
+                1
+#else
+                0
+#endif
+                );
     Rng top(seed ^ (mode == "gen" ? 0x9e37 : mode == "lin" ? 0x79b9 : 0x7f4a));
     for (int k = 0; k < n; ++k) {
         unsigned long long cseed = top.g();
